@@ -19,6 +19,11 @@
 (*   Variant "sharedindex": the candidate index of a rebuild survives into the *)
 (*                          next rebuild, which then finds files outside the   *)
 (*                          search directories it was given                    *)
+(*   Variant "cwdleak"    : a create that fails while hashing leaves the       *)
+(*                          process's working directory inside the content     *)
+(*                          root (chdir without try/finally); the operations   *)
+(*                          that follow name their paths relative to the       *)
+(*                          directory the process was started in (seed R13)    *)
 (* hist is a history variable (excluded from the fingerprint by VIEW) used to  *)
 (* emit behaviours for replay with -simulate.                                  *)
 EXTENDS Core, TLC, FiniteSetsExt
@@ -31,9 +36,9 @@ Targets == {"r", "r/d", "r/a"}
 Absent == -1
 Under(t) == CASE t = "r" -> Files [] t = "r/d" -> {"b", "c"} [] t = "r/a" -> {"a"}
 
-VARIABLES fs, gen, stamp, memo, hc, idx, metas, last, nops, hist
-vars == <<fs, gen, stamp, memo, hc, idx, metas, last, nops, hist>>
-View == <<fs, gen, stamp, memo, hc, idx, metas, last, nops>>
+VARIABLES fs, gen, stamp, memo, hc, idx, metas, last, nops, hist, cwd
+vars == <<fs, gen, stamp, memo, hc, idx, metas, last, nops, hist, cwd>>
+View == <<fs, gen, stamp, memo, hc, idx, metas, last, nops, cwd>>
 
 Present(f) == fs[f] # Absent
 TargetExists(t) == IF t = "r/a" THEN Present("a") ELSE TRUE
@@ -101,7 +106,8 @@ Step == nops < MaxOps /\ nops' = nops + 1
 \* al: piece alignment requested (padding entries; only the v1 creator honours it) - the padding buffers of
 \* the hasher are one more thing that must not survive from one create to the next
 Create(t, v, pl, route, al) == /\ Step /\ TargetExists(t) /\ FreshListing(t) # {}
-                /\ last' = [op |-> "create", got |-> ToolCreate(t), want |-> FreshCreate(t)]
+                /\ last' = [op |-> "create", want |-> FreshCreate(t),
+                            got |-> IF cwd = "moved" THEN [kind |-> "error", files |-> {}, sizes |-> <<>>, gens |-> <<>>] ELSE ToolCreate(t)]
                 /\ memo' = Store(memo, t)
                 /\ metas' = metas \cup {t}
                 /\ hc' = (IF Variant = "statcache"
@@ -109,7 +115,15 @@ Create(t, v, pl, route, al) == /\ Step /\ TargetExists(t) /\ FreshListing(t) # {
                                                 THEN [has |-> TRUE, size |-> fs[f], stamp |-> stamp[f], gen |-> gen[f]] ELSE hc[f]]
                           ELSE hc)
                 /\ Log([op |-> "create", target |-> t, version |-> v, plen |-> pl, route |-> route, align |-> al])
-                /\ UNCHANGED <<fs, gen, stamp, idx>>
+                /\ UNCHANGED <<fs, gen, stamp, idx, cwd>>
+\* a create that cannot succeed - the directory holds no file any more, or the single file is gone - fails the
+\* same way in a fresh process and must leave nothing behind in this one (no cache entry, no changed working
+\* directory: the operations that follow name their paths relative to it)
+CreateFail(t, v) == /\ Step /\ (~TargetExists(t) \/ FreshListing(t) = {})
+                    /\ last' = [op |-> "createfail", got |-> "error", want |-> "error"]
+                    /\ Log([op |-> "createfail", target |-> t, version |-> v])
+                    /\ cwd' = (IF Variant = "cwdleak" /\ TargetExists(t) /\ v = 1 THEN "moved" ELSE cwd)
+                    /\ UNCHANGED <<fs, gen, stamp, memo, hc, idx, metas>>
 Mutate(kind, f) ==
     /\ Step
     /\ CASE kind = "add"     -> ~Present(f) /\ \E s \in 0 .. MaxSize : fs' = [fs EXCEPT ![f] = s] /\ gen' = gen
@@ -123,12 +137,12 @@ Mutate(kind, f) ==
     /\ stamp' = (IF Variant = "statcache" /\ kind # "rewritekeep" THEN [stamp EXCEPT ![f] = (stamp[f] + 1) % 4] ELSE stamp)
     /\ last' = [op |-> "none", got |-> 0, want |-> 0]
     /\ Log([op |-> kind, file |-> PathOf(f), size |-> fs'[f]])
-    /\ UNCHANGED <<memo, hc, idx, metas>>
+    /\ UNCHANGED <<memo, hc, idx, metas, cwd>>
 \* operations on an existing metafile: no process-lifetime state is involved
 Use(kind, t) == /\ Step /\ t \in metas /\ (kind = "recheck" => TargetExists(t) \/ t # "r/a")
                 /\ last' = [op |-> kind, got |-> 0, want |-> 0]
                 /\ Log([op |-> kind, target |-> t])
-                /\ UNCHANGED <<fs, gen, stamp, memo, hc, idx, metas>>
+                /\ UNCHANGED <<fs, gen, stamp, memo, hc, idx, metas, cwd>>
 \* rebuild searches the directories it is given: the content root itself ("own"), an empty directory,
 \* or a directory holding a copy of r/a only ("part"); what it can find is what is there NOW
 Avail(search) == CASE search = "own" -> {f \in Files : Present(f)}
@@ -137,18 +151,20 @@ Avail(search) == CASE search = "own" -> {f \in Files : Present(f)}
 Rebuild(t, search) ==
     /\ Step /\ t \in metas
     /\ last' = [op |-> "rebuild", want |-> Avail(search),
-                got |-> IF Variant = "sharedindex" THEN Avail(search) \cup {f \in idx : Present(f)} ELSE Avail(search)]
+                got |-> IF cwd = "moved" THEN {}
+                        ELSE IF Variant = "sharedindex" THEN Avail(search) \cup {f \in idx : Present(f)} ELSE Avail(search)]
     /\ idx' = (IF Variant = "sharedindex" THEN idx \cup Avail(search) ELSE idx)
     /\ Log([op |-> "rebuild", target |-> t, search |-> search])
-    /\ UNCHANGED <<fs, gen, stamp, memo, hc, metas>>
+    /\ UNCHANGED <<fs, gen, stamp, memo, hc, metas, cwd>>
 
 Init == /\ fs \in [Files -> {Absent, 1}] /\ gen = [f \in Files |-> 0] /\ stamp = [f \in Files |-> 0]
         /\ hc = [f \in Files |-> NoHash] /\ idx = {}
         /\ memo = [k \in {"r", "r/d", "r/a", "r/d/b", "r/d/c"} |-> NoEntry]
-        /\ metas = {} /\ last = [op |-> "none", got |-> 0, want |-> 0] /\ nops = 0
+        /\ metas = {} /\ last = [op |-> "none", got |-> 0, want |-> 0] /\ nops = 0 /\ cwd = "base"
         /\ hist = <<[op |-> "init", fs |-> fs]>>
 Next == \/ \E t \in Targets, v \in 1 .. 3, pl \in 1 .. 2, rt \in {"lib", "cli", "clitracker", "cliconfig"}, al \in BOOLEAN :
               Create(t, v, pl, rt, al /\ v = 1)
+        \/ \E t \in Targets, v \in 1 .. 3 : CreateFail(t, v)
         \/ \E k \in {"add", "delete", "grow", "shrink", "rewrite", "rewritekeep"}, f \in Files : Mutate(k, f)
         \/ \E k \in {"recheck", "magnet", "edit"}, t \in Targets : Use(k, t)
         \/ \E t \in Targets, se \in {"own", "empty", "part"} : Rebuild(t, se)
